@@ -76,7 +76,7 @@ def lexString : List Char → List Char → Option (List Char × List Char)
               lexString rest'' (Char.ofNat (((x * 16 + y) * 16 + z) * 16 + w) :: acc)
             | _, _, _, _ => none
           | _ => none
-        else if e.toNat = 34 then lexString rest' ('"' :: acc)
+        else if e.toNat = 34 then lexString rest' ('\x22' :: acc)
         else if e.toNat = 92 then lexString rest' ('\\' :: acc)
         else if e.toNat = 47 then lexString rest' ('/' :: acc)
         else if e.toNat = 98 then lexString rest' (Char.ofNat 8 :: acc)
